@@ -36,9 +36,13 @@
     "from then on every further cycle reproduces them"            write_read_fixpoint
     "both simulator flavours"                                     flavour_param_spec
     tie to the tables and dispatch of /repo                       all_records_wf, dispatch_as_modelled
+    "the whole model": read (write d) = canon d                    read_write_whole_partial (induction over the section list;
+                                                                 kinds ROCKS PARAM MOMOP START NOVER ELEME CONNE GENER, TOUGH2
+                                                                 flavour, in-file mesh), whole_sections_preserved,
+                                                                 write_read_write_whole_partial
   Not proved as theorems (modelled and checked by the correspondence and the oracle only): the
-  composition of all section round trips into `read (write d) = canon d` for whole objects, the binary
-  MESHA/MESHB pair, and idempotence of `canonV` on reals (C02's domain).
+  composition into `read (write d) = canon d` for the other fifteen section kinds, AUTOUGH2 objects and the
+  auxiliary files; the binary MESHA/MESHB pair; idempotence of `canonV` on reals (C02's domain).
 -/
 import PyTough.Proofs.T2WholeKinds
 open Py Model Model.T2 Proofs Proofs.T2 Proofs.Incon
@@ -598,5 +602,71 @@ example : ChainOK .default none T2Data.empty [⟨c!"START", nl c!"START", []⟩]
   refine ⟨{ T2Data.empty with start := true }, ⟨by decide +kernel, by unfold IsEnd; decide, by decide +kernel, by decide +kernel, by decide, ?_⟩, rfl⟩
   intro line _ rest
   exact ⟨none, rest, rfl, Or.inl ⟨rfl, rfl⟩⟩
+
+-- a whole object for `read_write_whole_partial`: a rock type with NAD = 2, PARAM with nine time steps (two lines) and five
+-- default initial conditions (two lines, then the look-ahead into MOMOP), MOMOP, START, one block
+def exWhole : T2Data :=
+  { exParam with title := c!"whole object", rocks := [exRock2], start := true,
+                 moreOption := [0, 1, 0, 0, 0, 0, 0, 0, 0, 0, 2, 2, 2, 0, 0, 0, 5, 0, 0, 0, 1, 9],
+                 blocks := [exBlock] }
+def exCfg : WriteCfg := ⟨.infile, none, none⟩
+example : ∃ f, exWhole.write exCfg = .ok (exWhole.updateSections, f) := by
+  refine ⟨(match exWhole.write exCfg with | .ok x => x.2 | .error _ => ⟨[], none, none⟩), ?_⟩
+  decide +kernel
+example : exWhole.updateSections.sections = [c!"ROCKS", c!"PARAM", c!"MOMOP", c!"START", c!"ELEME", c!"CONNE"] ∧
+    exWhole.updateSections.sections.all (wholeKinds.contains ·) = true ∧ IsEnd exWhole.endKeyword := by
+  refine ⟨by decide +kernel, by decide +kernel, Or.inl (by decide +kernel)⟩
+example : GoodFrom (stepCanon exWhole.updateSections) (GoodStep exWhole.updateSections)
+    [c!"ROCKS", c!"PARAM", c!"MOMOP", c!"START", c!"ELEME", c!"CONNE"] (startObj exWhole) := by
+  refine ⟨?rocks, ?param, ?momop, ?start, ?eleme, ?conne, trivial⟩
+  case start => exact (rfl : exWhole.start = true)
+  case momop =>
+    refine ⟨⟨rfl, rfl, by decide⟩, (match writeMoreOptions mainTabs exWhole with | .ok l => l | .error _ => []), ?_⟩
+    decide +kernel
+  case conne => exact ⟨fun c hc => absurd hc (by simp [exWhole, exParam, T2Data.updateSections, T2Data.empty]), fun c hc => absurd hc (by simp [exWhole, exParam, T2Data.updateSections, T2Data.empty])⟩
+  case rocks =>
+    refine ⟨?_, ?_⟩
+    · intro rt hrt
+      have : rt = exRock2 := by simpa [exWhole, T2Data.updateSections] using hrt
+      subst this
+      exact { name := ⟨_, rfl, rfl, by decide, by decide +kernel⟩, nad := Or.inr ⟨2, rfl⟩, nadKeep := by decide +kernel, perm := rfl,
+              rp := fun _ => ⟨exRP, rfl, by decide⟩, cp := fun _ => ⟨exCP, rfl, by decide⟩ }
+    · intro rt hrt
+      have : rt = exRock2 := by simpa [exWhole, T2Data.updateSections] using hrt
+      subst this
+      refine ⟨(match writeRock mainTabs exRock2 with | .ok l => l | .error _ => []), ?_⟩
+      decide +kernel
+  case eleme =>
+    refine ⟨?_, ?_⟩
+    · intro b hb
+      have : b = exBlock := by simpa [exWhole, T2Data.updateSections] using hb
+      subst this
+      exact ⟨⟨rfl, by decide +kernel, by decide +kernel⟩, rfl, by decide, by decide +kernel, by intro c h; cases h; rfl⟩
+    · intro b hb
+      have : b = exBlock := by simpa [exWhole, T2Data.updateSections] using hb
+      subst this
+      refine ⟨(match writeBlock mainTabs exBlock with | .ok l => l | .error _ => []), ?_⟩
+      decide +kernel
+  case param =>
+    refine ⟨?_, ⟨(match writeParameters mainTabs exWhole with | .ok l => l | .error _ => []), by decide +kernel⟩, ?_⟩
+    · exact
+        { flavour := rfl, fresh := rfl, pbW := by decide +kernel,
+          mop := ⟨(match (paramAfter1 (pr1 exWhole) exWhole T2Data.empty).get c!"_option_str" with | some (.str s) => s | _ => []),
+                  by decide +kernel, by decide +kernel⟩,
+          pb := by decide +kernel,
+          ct := ⟨-2, by decide +kernel, by decide +kernel, fun _ => by decide +kernel⟩,
+          tsVals := by decide +kernel, diVals := by decide +kernel }
+    · intro dil hdil
+      have : dil = (match writeChunks (recOf mainTabs c!"default_incons") 4 exWhole.defaultIncons 5 2 with | .ok l => l | .error _ => []) := by
+        have h2 : (if exWhole.updateSections.defaultIncons.length > 0 then
+            writeChunks (recOf mainTabs c!"default_incons") 4 exWhole.updateSections.defaultIncons exWhole.updateSections.defaultIncons.length
+              ((exWhole.updateSections.defaultIncons.length + 3) / 4)
+          else .ok [nl []]) = .ok (match writeChunks (recOf mainTabs c!"default_incons") 4 exWhole.defaultIncons 5 2 with | .ok l => l | .error _ => []) := by
+          decide +kernel
+        rw [h2] at hdil
+        cases hdil
+        rfl
+      subst this
+      decide +kernel
 
 end Props.C01
